@@ -4,6 +4,7 @@ The harness (harness/store.py) runs the real `Container` on the same operations 
 -/
 import Dos.Store
 import Dos.IO
+import Dos.IOImport
 import Dos.Wire
 
 namespace Dos.StoreDriver
@@ -186,6 +187,10 @@ def compileOp (t : Tab) (s : St) (args : List String) : Option (List Act) :=
   | ["clean", order] => do pure (actsClean s (← natList order))
   | ["delete", ks] => do pure (actsDelete s (← natList ks))
   | ["repackOne", p, zs] => do pure (actsRepackPack t s (← p.toNat?) (← boolList zs))
+  | ["addPackedO", comp, nh, rt, fs, cs] => do pure (actsAddPackedO t s (← natList cs) (comp == "1") (nh == "1") (rt == "1") (fs == "1"))
+  | ["import", comp, nh, rt, fs, calls] => do
+    let cl ← if calls == "-" then some [] else (splitOn1 calls '|').mapM natList
+    pure (actsImport t s cl (comp == "1") (nh == "1") (rt == "1") (fs == "1"))
   | _ => none
 
 def lengthsOf (t : Tab) (acts : List Act) : String :=
